@@ -21,7 +21,7 @@ FORMULAS = ["y ~ x + f", "y ~ center(x) + g", "y ~ scale(z):f + (1 | g)", "y ~ 0
             "y ~ C(k) + center(x + w) + (0 + x | g)", "y ~ f*h + (1 | g) + (z | g)", "y ~ T(g, 'q') + scale(center(z))",
             "y ~ poly(x, 2) + f + (1 | h)", "y ~ bs(z, df=4) + (center(x) | g)", "y ~ S(f):x + o", "f ~ x + g",
             "y ~ standardize(w) + C(f, Sum) + (1 | g:h)"]
-MODES = ["error", "warning", "silent", "bogus"]
+MODES = ["error", "warning", "silent", "bogus", "warn", "", "err"]
 # a formula that calls a user function taken from extra_namespace; builds that use it pass one of two
 # different definitions of tr, and every build of a history receives the SAME Environment object as env=
 TR = len(FORMULAS)
@@ -137,6 +137,21 @@ def _public_view(d):
         except Exception:  # noqa
             refused = True
         v.append([sl, list(part.terms), refused])
+    # the per-term training blocks the design keeps (terms[name].data; expr and factor of a group term)
+    blocks = []
+    for part in (d.response, d.common, d.group):
+        if part is None:
+            continue
+        terms = [part.term.term] if part is d.response else list(part.terms.values())
+        for t in terms:
+            for obj in (t, getattr(t, "expr", None), getattr(t, "factor", None)):
+                dat = getattr(obj, "data", None)
+                if dat is not None:
+                    try:
+                        blocks.append(dm._rows(dat))
+                    except Exception:  # noqa
+                        blocks.append(str(type(dat)))
+    v.append(blocks)
     return json.loads(json.dumps(v))
 
 
